@@ -195,7 +195,7 @@ impl Db {
     }
 
     pub fn query(&self, sql: &str) -> Result<QueryResult, String> {
-        let sql = patch_values_alias(sql);
+        let sql = patch_bare_offset(&patch_values_alias(sql));
         let mut st = self.conn.prepare(&sql).map_err(|e| format!("{e}"))?;
         let names: Vec<String> = st.column_names().iter().map(|s| s.to_string()).collect();
         let n = names.len();
@@ -330,6 +330,24 @@ pub fn patch_values_alias(sql: &str) -> String {
             }
         }
     }
+}
+
+/// SQLite needs a LIMIT before OFFSET: `... OFFSET n` -> `... LIMIT -1 OFFSET n` (only when no LIMIT precedes it)
+pub fn patch_bare_offset(sql: &str) -> String {
+    let mut out = String::new();
+    let mut rest = sql;
+    while let Some(i) = find_outside_quotes(rest, " OFFSET ") {
+        let before = &rest[..i];
+        let tail: String = before.chars().rev().take(24).collect::<String>().chars().rev().collect();
+        out.push_str(before);
+        if !tail.contains(" LIMIT ") {
+            out.push_str(" LIMIT -1");
+        }
+        out.push_str(" OFFSET ");
+        rest = &rest[i + 8..];
+    }
+    out.push_str(rest);
+    out
 }
 
 fn find_outside_quotes(s: &str, pat: &str) -> Option<usize> {
